@@ -15,7 +15,7 @@ PROBES = [
 
 def check(tier, seed):
     rep = Report("C01", tier, seed, "proof")
-    proof_stage(rep, PROP_MODULE)
+    proof_stage(rep, PROP_MODULE, required=["Never.C01.arith_guards_complete_partial", "Never.C01.array_index_guard_complete_partial", "Never.C01.handler_lookup_guard", "Never.C01.collector_guard"])
     h = vm_corr.VmHarness()
     stats = {}
     crashes = collections_counter()
